@@ -40,7 +40,7 @@ func New(ctx context.Context, clock clock.IClock, definition schema.TimerEventDe
 			return
 		}
 		go dateTimeTimer(ctx, clock, t, func() {
-			ch <- definition
+			deliver(ctx, ch, definition)
 			close(ch)
 		})
 	case !timeDatePresent && timeCyclePresent && !timeDurationPresent:
@@ -55,7 +55,7 @@ func New(ctx context.Context, clock clock.IClock, definition schema.TimerEventDe
 			repeatingInterval.Interval.Start = &now
 		}
 		go recurringTimer(ctx, clock, repeatingInterval, func() {
-			ch <- definition
+			deliver(ctx, ch, definition)
 		}, func() {
 			close(ch)
 		})
@@ -67,7 +67,7 @@ func New(ctx context.Context, clock clock.IClock, definition schema.TimerEventDe
 			return
 		}
 		go dateTimeTimer(ctx, clock, clock.Now().Add(duration.Duration), func() {
-			ch <- definition
+			deliver(ctx, ch, definition)
 			close(ch)
 		})
 	default:
@@ -78,6 +78,15 @@ func New(ctx context.Context, clock clock.IClock, definition schema.TimerEventDe
 		return
 	}
 	return
+}
+
+// deliver hands a firing to the consumer unless the context is done: a consumer that stopped
+// reading on cancellation must not leave the timer's goroutine blocked on the channel forever
+func deliver(ctx context.Context, ch chan schema.TimerEventDefinition, definition schema.TimerEventDefinition) {
+	select {
+	case ch <- definition:
+	case <-ctx.Done():
+	}
 }
 
 func recurringTimer(ctx context.Context, clock clock.IClock, interval iso8601.RepeatingInterval, f func(), final func()) {
